@@ -168,18 +168,25 @@ fn document(c: &Sexp) -> String {
         let (cx, output) = ServerMetaContext::new();
         provide_context(cx);
         provide_meta_context();
-        let app = view! {
-            {title.map(|t| view! { <Title text=t/> })}
-            {metas
-                .into_iter()
-                .map(|(n, c)| view! { <Meta name=n content=c/> })
-                .collect::<Vec<_>>()}
-            {link.map(|h| view! { <Link rel="canonical" href=h/> })}
-            {html_lang.map(|l| view! { <Html attr:lang=l/> })}
-            {body_class.map(|b| view! { <Body attr:class=b/> })}
-            {view(&body_view)}
-        };
-        let body = app.to_html();
+        // the components render nothing in place: they register with the ServerMetaContext
+        let mut parts: Vec<AnyView> = vec![];
+        if let Some(t) = title {
+            parts.push(view! { <Title text=t/> }.into_any());
+        }
+        for (n, c) in metas {
+            parts.push(view! { <Meta name=n content=c/> }.into_any());
+        }
+        if let Some(h) = link {
+            parts.push(view! { <Link rel="canonical" href=h/> }.into_any());
+        }
+        if let Some(l) = html_lang {
+            parts.push(view! { <Html attr:lang=l/> }.into_any());
+        }
+        if let Some(b) = body_class {
+            parts.push(view! { <Body attr:class=b/> }.into_any());
+        }
+        parts.push(view(&body_view));
+        let body = seq(parts).to_html();
         let shell = format!(
             "<!DOCTYPE html><html><head><meta charset=\"utf-8\"><!--HEAD--></head><body>{body}</body></html>"
         );
